@@ -590,6 +590,8 @@ func c13Run(c *Ctx) {
 		c13RunVia(c)
 	}
 	c13RunRerun(c)
+	heapPatchOpGen(c, c.N(400)) // heap_share2.go
+	heapSetOpGen(c, c.N(300))   // heap_share2.go
 }
 
 // c13Heads / c13Tails: special beginnings and endings of imported files.
@@ -670,6 +672,10 @@ func c13NodeCount(w W) int { return wireSize(w) }
 
 func c13Eval(c *Ctx, kind string, raw []byte) {
 	switch kind {
+	case "heap-patchop":
+		heapPatchOpEval(c, raw) // heap_share2.go
+	case "heap-setop":
+		heapSetOpEval(c, raw) // heap_share2.go
 	case "large":
 		c13EvalLarge(c, raw) // c13_more.go
 	case "set":
